@@ -743,14 +743,15 @@ func (fx *FuncExec) isMapRangeLoop(li *LoopInfo) bool {
 	return false
 }
 
-// rangeCounterBounds: the hidden counter of a range loop stays in [-1, bound] (it starts at -1 and is
-// only incremented while below the bound).
+// rangeCounterBounds: at the loop head the hidden counter of a range loop is -1 or an index below the
+// fixed bound (it starts at -1 and the body is only entered after it was incremented to a value below
+// the bound).
 func (fx *FuncExec) rangeCounterBounds(ps *pathState, li *LoopInfo) {
 	lv := fx.loopVars(ps, li)
 	ri, ok1 := lv["rangeindex"].(Scalar)
 	rl, ok2 := lv["rangelen"].(Scalar)
 	if ok1 && ok2 {
-		ps.st.assumeGlobal(tAnd(tLe(intLit(-1), ri.T), tLt(ri.T, tAdd(rl.T, intLit(1)))))
+		ps.st.assumeGlobal(tAnd(tLe(intLit(-1), ri.T), tOr(tEq(ri.T, intLit(-1)), tLt(ri.T, rl.T))))
 		if _, hi, ok := ps.st.boundOf(rl.T.S, 0); ok {
 			if ps.st.bounds == nil {
 				ps.st.bounds = map[string][2]*big.Int{}
@@ -767,7 +768,7 @@ func (fx *FuncExec) autoRangeVariant(ps *pathState, li *LoopInfo) {
 	if ok1 && ok2 {
 		// the hidden counter never exceeds the bound (it is only incremented while below it)
 		// (a fact about this iteration's fresh counter symbol: it survives modular cuts of inner loops)
-		ps.st.assumeGlobal(tAnd(tLe(intLit(-1), ri.T), tLt(ri.T, tAdd(rl.T, intLit(1)))))
+		ps.st.assumeGlobal(tAnd(tLe(intLit(-1), ri.T), tOr(tEq(ri.T, intLit(-1)), tLt(ri.T, rl.T))))
 		if _, hi, ok := ps.st.boundOf(rl.T.S, 0); ok {
 			if ps.st.bounds == nil {
 				ps.st.bounds = map[string][2]*big.Int{}
